@@ -240,6 +240,9 @@ class Gen:
                 o, keys = r.choice(env["objs"])
                 extra = ":${%s.%s}" % (o, r.choice(keys))
             env["strs"].append(nm)
+            if r.random() < 0.4:
+                self.feat.add("template-nested-brace")
+                extra += ":${JSON.stringify({n: 1}).length + %s}" % r.choice(env["nums"])
             return "%sconst %s = `t=${%s}%s  //x %s`;" % (ind, nm, a, extra, r.choice(["", "'q'", "$", "{}"]))
         if k == 12:
             nm = self.pick_new(env)
@@ -411,5 +414,7 @@ CORPUS = [
     "function f(){ let html = '<a>'; let re = /<\\/a>/g; let s = html.replace(re, ''); return s; } console.log(f());",
     "function f(n){ let r = 10n ** 2n; return r + BigInt(n); } console.log(String(f(1)));",
     "function f(){ let a = 1; switch(a){ case a: return 'y'; default: return 'n'; } } console.log(f());",
+    "function f(){ let total = 2; const s = `${JSON.stringify({n: 1}) + total}`; return s; } console.log(f());",
+    "function f(offset){ const list = [1, 2]; return `${list.map(function (q) { return q * 2; }).length + offset}|${`in${offset}`}`; } console.log(f(3));",
     "function f(){ let item = {value: 2}; const rows = [1].map(k => `<td>${k}</td><td>${item.value}</td>`); return rows.join(''); } console.log(f());",
 ]
